@@ -753,15 +753,20 @@ example : textsOf (blockPhase dflt 40 (indentDocAt 2 (L "-") 1 true T2)) =
 
 /-! ### Why the content is the parse of `normDoc`, and why each remaining hypothesis (model = implementation on all of them) -/
 
-/-- `T2` itself parses otherwise than `normDoc T2`: its indented code block keeps the spaces-only line that follows it
-    (`BlockCode.read` counts only "\n" lines as trailing blanks) — so `hsame` fails for `T2`, and the item's content is not
-    `T2`'s parse.  Implementation: BlockCode 'indented code\n  \n' at top level, 'indented code\n' inside the item. -/
-example : textsOf (blockPhase dflt 30 T2) = [[L "para\n"], [L "indented code\n", L "  \n"], [L "nested\n", L "more\n"]] := by decide +kernel
+/-- `T2` itself now parses like `normDoc T2` = `T` (same texts, same outline): `BlockCode.read` hands back EVERY whitespace-only
+    trailing line, so the indented code block no longer keeps the spaces-only line that follows it.  (The pinned code counted
+    only "\n" lines as trailing blanks: `hsame` failed for `T2`, the implementation gave BlockCode 'indented code\n  \n' at top
+    level and 'indented code\n' inside the item, and this example showed the two texts differ.  Repaired in /repo; implementation
+    now: `Document(T2)` and `Document(T)` have the same AST, BlockCode 'indented code\n' in both.)  `normDoc` is still what the
+    theorem needs in general: a whitespace-only line INSIDE an indented code block keeps its spaces beyond the fourth. -/
+example : textsOf (blockPhase dflt 30 T2) = [[L "para\n"], [L "indented code\n"], [L "nested\n", L "more\n"]] := by decide +kernel
+example : outlineOf (blockPhase dflt 30 T2) = outlineOf (blockPhase dflt 30 T) := by decide +kernel
 
-/-- outside any code block too: a line of four spaces after a paragraph starts an indented code block (`BlockCode.start` does not
-    look at the rest of the line), but inside the item it is read as "\n" -/
+/-- outside any code block a line of four spaces is a blank line, at top level and inside the item alike (the pinned
+    `BlockCode.start` did not look at the rest of the line and started an indented code block on it at top level: repaired in
+    /repo by 0b09465 - this example used to show the two parses differ) -/
 def spaces4 : List Str := [L "a\n", L "    \n", L "b\n"]
-example : outlineOf (blockPhase dflt 30 spaces4) = ([(0, "p", 1, 1), (0, "code", 2, 2), (0, "p", 3, 3)], 0) := by decide +kernel
+example : outlineOf (blockPhase dflt 30 spaces4) = ([(0, "p", 1, 1), (0, "p", 3, 3)], 0) := by decide +kernel
 example : outlineOf (blockPhase dflt 30 (normDoc spaces4)) = ([(0, "p", 1, 1), (0, "p", 3, 3)], 0) := by decide +kernel
 example : outlineOf (blockPhase dflt 40 (indentDocAt 0 (L "-") 1 false spaces4)) =
     ([(0, "list", 1, 1), (1, "item(loose)", 1, 1), (2, "p", 1, 1), (2, "p", 3, 3)], 0) := by decide +kernel
